@@ -10,7 +10,18 @@ def main():
     seed = int(os.environ.get("VERIF_SEED", "1"))
     mod = importlib.import_module("harness." + a.pid.lower())
     if a.replay:
-        sys.exit(mod.replay(json.load(open(a.replay))))
+        obj = json.load(open(a.replay))
+        print(f"replay of {a.replay}: property={obj.get('property')} key={obj.get('key')}\n  {obj.get('what')}\n  input: {str(obj.get('replay'))[:1500]}")
+        if hasattr(mod, "replay"):
+            sys.exit(mod.replay(obj))
+        # generic replay: every random choice derives from (seed, property), so re-running the check at the
+        # recorded seed and tier regenerates the recorded input; report whether the same failure recurs
+        seed = int(obj.get("seed", seed))
+        chk = Check(a.pid, obj.get("tier", a.tier), seed)
+        rc = mod.run(chk)
+        again = [k for k, _, _ in chk.failures if k == obj.get("key")]
+        print(f"replay: failure '{obj.get('key')}' {'REPRODUCED' if again or (obj.get('key') == 'no-failing-input' and rc) else 'not reproduced'}")
+        sys.exit(rc)
     chk = Check(a.pid, a.tier, seed)
     try:
         rc = mod.run(chk)
